@@ -87,10 +87,12 @@ def perturb_data(text, plan):
             arows[j] = arows[j] + '  # atom ' + str(j)
             fired.append('noise_row_comment')
     out = list(header)
-    if loss != 'atoms_section':
+    if loss not in ('atoms_section', 'atoms_only'):
         out += [atoms_kw, ''] + arows
     else:
         fired.append('loss_atoms_section')
+        if loss == 'atoms_only' and vrows is not None:
+            fired.append('loss_atoms_section_velocities_kept')
     if vrows is not None and loss != 'atoms_section':
         for txt in plan.get('between_noise', []):
             out.append(txt)
